@@ -1,4 +1,4 @@
-import Dmn.Lemmas.RefParserSteps
+import Dmn.Lemmas.RefParserStepsExt
 
 /-!
 # C06 — facts about `absorbs`, `startsOk` and the printers
@@ -16,16 +16,32 @@ theorem levelGe_of_none {t : Tok} (h : opLevel t = none) (k : Nat) : levelGe t k
 theorem opLevel_ne_dot {t : Tok} (h : opLevel t = none) : (t == Tok.dot) = false := by
   cases t <;> simp_all [opLevel, binOf]
 
-/-- A token that is no operator is never absorbed. -/
-theorem absorbs_of_none (m : Mode) {t : Tok} (h : opLevel t = none) : ∀ c : Tree, absorbs m c t = false
+/-- A token that ends an operand and stays outside: no operator, and not the first token of an
+endpoint (which would turn the `]` of `[ ]` into the start of an interval). -/
+def Delim (t : Tok) : Prop := opLevel t = none ∧ startsEnd t = false
+
+/-- A delimiter is never absorbed. -/
+theorem absorbs_of_none (m : Mode) {t : Tok} (hd : Delim t) : ∀ c : Tree, absorbs m c t = false
   | .atom _ => by simp [absorbs]
-  | .bin _ _ r => by simp [absorbs, levelGe_of_none h, absorbs_of_none m h r]
-  | .neg e => by simp [absorbs, levelGe_of_none h, absorbs_of_none m h e]
-  | .between _ _ hi => by simp [absorbs, levelGe_of_none h, absorbs_of_none m h hi]
-  | .instOf _ _ _ => by simp [absorbs, opLevel_ne_dot h]
+  | .bin _ _ r => by have h := hd.1; simp [absorbs, levelGe_of_none h, absorbs_of_none m hd r]
+  | .neg e => by have h := hd.1; simp [absorbs, levelGe_of_none h, absorbs_of_none m hd e]
+  | .between _ _ hi => by have h := hd.1; simp [absorbs, levelGe_of_none h, absorbs_of_none m hd hi]
+  | .instOf _ _ _ => by simp [absorbs, opLevel_ne_dot hd.1]
   | .path _ _ => by simp [absorbs]
   | .filter _ _ => by simp [absorbs]
   | .call _ _ => by simp [absorbs]
+  | .callNamed _ _ _ _ => by simp [absorbs]
+  | .inList _ _ _ _ => by simp [absorbs]
+  | .ite _ _ b => by have h := hd.1; simp [absorbs, levelGe_of_none h, absorbs_of_none m hd b]
+  | .forS _ _ _ b => by have h := hd.1; simp [absorbs, levelGe_of_none h, absorbs_of_none m hd b]
+  | .forR _ _ _ _ b => by have h := hd.1; simp [absorbs, levelGe_of_none h, absorbs_of_none m hd b]
+  | .quant _ _ _ _ b => by have h := hd.1; simp [absorbs, levelGe_of_none h, absorbs_of_none m hd b]
+  | .fn _ b => by have h := hd.1; simp [absorbs, levelGe_of_none h, absorbs_of_none m hd b]
+  | .list .nil => by simp [absorbs, hd.2]
+  | .list (.cons _ _) => by simp [absorbs]
+  | .ctx _ => by simp [absorbs]
+  | .range _ _ _ _ => by simp [absorbs]
+  | .utest _ _ => by simp [absorbs, opLevel_ne_dot hd.1]
 
 /-- Every tree is a complete expression at level 0. -/
 theorem startsOk_zero (m : Mode) : ∀ c : Tree, startsOk m 0 c = true
@@ -37,6 +53,17 @@ theorem startsOk_zero (m : Mode) : ∀ c : Tree, startsOk m 0 c = true
   | .path e _ => by simp [startsOk, startsOk_zero m e]
   | .filter e _ => by simp [startsOk, startsOk_zero m e]
   | .call f _ => by simp [startsOk, startsOk_zero m f]
+  | .callNamed f _ _ _ => by simp [startsOk, startsOk_zero m f]
+  | .inList e _ _ _ => by simp [startsOk, startsOk_zero m e]
+  | .ite _ _ _ => by simp [startsOk]
+  | .forS _ _ _ _ => by simp [startsOk]
+  | .forR _ _ _ _ _ => by simp [startsOk]
+  | .quant _ _ _ _ _ => by simp [startsOk]
+  | .fn _ _ => by simp [startsOk]
+  | .list _ => by simp [startsOk]
+  | .ctx _ => by simp [startsOk]
+  | .range _ _ _ _ => by simp [startsOk]
+  | .utest _ _ => by simp [startsOk]
 
 /-- `rest` does not begin with a token the bare tree `c` would take into itself. -/
 def notAbsorbed (m : Mode) (c : Tree) : List Tok → Prop
@@ -64,18 +91,39 @@ theorem parseLoop_stops {k : Nat} {rest : List Tok} (h : stopsAt k rest) (fb : O
 theorem stopsAt_of_none {t : Tok} (h : opLevel t = none) (k : Nat) (rest : List Tok) : stopsAt k (t :: rest) := by
   simp [stopsAt, levelGe_of_none h]
 
-theorem notAbsorbed_of_none (m : Mode) (c : Tree) {t : Tok} (h : opLevel t = none) (rest : List Tok) :
+theorem notAbsorbed_of_none (m : Mode) (c : Tree) {t : Tok} (h : Delim t) (rest : List Tok) :
     notAbsorbed m c (t :: rest) := by
   simp [notAbsorbed, absorbs_of_none m h c]
 
-/-- What follows an argument starts with `)` or `,`. -/
-theorem prArgsTail_head (m : Mode) (as : Args) (rest : List Tok) :
-    ∃ t ts, prArgsTail m as ++ rest = t :: ts ∧ opLevel t = none := by
+/-- What follows an argument starts with the closing token or `,`. -/
+theorem prArgsTail_head (m : Mode) {close : Tok} (hc : Delim close) (hce : close ≠ .ellipsis ∧ close ≠ .colon)
+    (as : Args) (rest : List Tok) :
+    ∃ t ts, prArgsTail m close as ++ rest = t :: ts ∧ Delim t ∧ t ≠ .ellipsis ∧ t ≠ .colon := by
   cases as with
-  | nil => exact ⟨.rparen, rest, by simp [prArgsTail], rfl⟩
+  | nil => exact ⟨close, rest, by simp [prArgsTail], hc, hce.1, hce.2⟩
   | cons a as =>
-    exact ⟨.comma, par (wrapped m (needs m .callArg a) a) (pr m a) ++ prArgsTail m as ++ rest,
-      by simp [prArgsTail], rfl⟩
+    exact ⟨.comma, par (wrapped m (needs m .callArg a) a) (pr m a) ++ prArgsTail m close as ++ rest,
+      by simp [prArgsTail], ⟨rfl, rfl⟩, by simp, by simp⟩
+
+theorem prBindsTail_head (m : Mode) {sep close : Tok} (hc : Delim close) (hce : close ≠ .ellipsis ∧ close ≠ .colon)
+    (bs : Binds) (rest : List Tok) :
+    ∃ t ts, prBindsTail m sep close bs ++ rest = t :: ts ∧ Delim t ∧ t ≠ .ellipsis ∧ t ≠ .colon := by
+  cases bs with
+  | nil => exact ⟨close, rest, by simp [prBindsTail], hc, hce.1, hce.2⟩
+  | cons n v bs => exact ⟨.comma, _, by simp [prBindsTail]; rfl, ⟨rfl, rfl⟩, by simp, by simp⟩
+
+theorem prEntriesTail_head (m : Mode) (es : Entries) (rest : List Tok) :
+    ∃ t ts, prEntriesTail m es ++ rest = t :: ts ∧ Delim t ∧ t ≠ .ellipsis ∧ t ≠ .colon := by
+  cases es with
+  | nil => exact ⟨.rbrace, rest, by simp [prEntriesTail], ⟨rfl, rfl⟩, by simp, by simp⟩
+  | cons k v es => exact ⟨.comma, _, by simp [prEntriesTail]; rfl, ⟨rfl, rfl⟩, by simp, by simp⟩
+
+theorem prItersTail_head (m : Mode) (its : Iters) (rest : List Tok) :
+    ∃ t ts, prItersTail m its ++ rest = t :: ts ∧ Delim t ∧ t ≠ .ellipsis ∧ t ≠ .colon := by
+  cases its with
+  | nil => exact ⟨.kreturn, rest, by simp [prItersTail], ⟨rfl, rfl⟩, by simp, by simp⟩
+  | single v d its => exact ⟨.comma, _, by simp [prItersTail]; rfl, ⟨rfl, rfl⟩, by simp, by simp⟩
+  | range v lo hi its => exact ⟨.comma, _, by simp [prItersTail]; rfl, ⟨rfl, rfl⟩, by simp, by simp⟩
 
 theorem par_true (p : List Tok) : par true p = .lparen :: p ++ [.rparen] := rfl
 theorem par_false (p : List Tok) : par false p = p := rfl
